@@ -51,6 +51,12 @@ def h_issubclass(I, st, fv, args, kwargs, ctx):
 
 def h_value_method(I, st, name, selfv, args, kwargs, ctx):
     U = I.U
+    if name == "get" and isinstance(selfv, Sym) and 1 <= len(args) <= 2 and not kwargs:
+        # mapping.get(key[, default]) on a mapping about which nothing is known: the stored value
+        # or the default — some value (sound over-approximation)
+        r = U.fresh("got")
+        U.well_typed(r)
+        return [(st, Sym(r))]
     if name == "lower":
         if isinstance(selfv, Conc) and isinstance(selfv.py, str):
             return [(st, Conc(selfv.py.lower()))]
